@@ -8,7 +8,9 @@
 (*        the generator printed for it, and what ParseGraphqlDocumentBytes    *)
 (*        did: accepted?, fields / selection depth of the produced AST, how   *)
 (*        many token-level mutants the driver evaluated.                      *)
-(*   {"k":"lim", L, F, acc}   ParseWithLimits(L, F) on the current document   *)
+(*   {"k":"lim", L, F, acc, statD, statF, dacc, chk}  ParseWithLimits(L, F)   *)
+(*        on the current document, the statistics it returned, whether the    *)
+(*        document parses without limits, whether conformance is judged       *)
 (*   {"k":"lit", blk, src, oblk, out}   one string literal of the current     *)
 (*        document (block?, raw content between the delimiters as code        *)
 (*        points) and the literal at the same place of the printed document   *)
@@ -30,7 +32,8 @@ VARIABLES l,      \* next line
           obs     \* last observation: [k, L, F, acc, astF, astD]
 tvars == <<gvars, l, obs>>
 Ev == TraceLog[l]
-NoObs == [k |-> "none", L |-> 0, F |-> 0, acc |-> FALSE, astF |-> 0, astD |-> 0, blk |-> FALSE, src |-> <<>>, oblk |-> FALSE, out |-> <<>>]
+NoObs == [k |-> "none", L |-> 0, F |-> 0, acc |-> FALSE, astF |-> 0, astD |-> 0, blk |-> FALSE, src |-> <<>>, oblk |-> FALSE, out |-> <<>>,
+          chk |-> FALSE, dacc |-> FALSE, statD |-> 0, statF |-> 0]
 
 TraceInit ==
   /\ l = 1 /\ TLCSet(1, 0)
@@ -53,7 +56,7 @@ T_Doc ==
 T_Lim ==
   /\ IsLine("lim")
   /\ Len(toks) > 0
-  /\ obs' = [NoObs EXCEPT !.k = "lim", !.L = Ev.L, !.F = Ev.F, !.acc = Ev.acc]
+  /\ obs' = [NoObs EXCEPT !.k = "lim", !.L = Ev.L, !.F = Ev.F, !.acc = Ev.acc, !.chk = Ev.chk, !.dacc = Ev.dacc, !.statD = Ev.statD, !.statF = Ev.statF]
   /\ UNCHANGED <<toks, nf, mx>> /\ Keep
 
 \* the literal is one of the current document's string tokens: delimiters + raw content spell the token
@@ -84,12 +87,23 @@ LimitsSoundSyntactic == obs.k = "lim" => (ExceedsSyntactic(toks, obs.L, obs.F) =
 \* an accepted document is the document that was written: as many fields, as deep
 ParseAgrees == (obs.k = "doc" /\ obs.acc) => (obs.astF = FieldCount(toks) /\ obs.astD = Depth(toks))
 
+\* conformance with the specification of the accounting (the repaired model of TokenizeWithLimits: cumulative depth over the
+\* definitions, every identifier inside braces a field): for a document the parser accepts, ParseWithLimits(L, F) accepts exactly
+\* when the model does, and without limits it reports the model's TotalDepth / TotalFields
+DecisionConforms == (obs.k = "lim" /\ obs.chk /\ obs.dacc) => (obs.acc <=> ModelAccepts(toks, obs.L, obs.F))
+StatsConform == (obs.k = "lim" /\ obs.chk /\ obs.acc /\ obs.L = 0 /\ obs.F = 0) =>
+                  (obs.statD = ImplTotalDepth(toks, TRUE) /\ obs.statF = ImplFields(toks, TRUE))
+
 \* printing preserves what every string literal and description denotes (block strings: BlockStringValue of the raw
 \* content with \""" unescaped; ordinary strings: the escape sequences resolved), whatever spelling the printer chooses
 DenLit(blk, r) == Lit!Den(Lit!Leaf(IF blk THEN "bstr" ELSE "str", r), "String", <<>>, FALSE)
 PrintPreservesValue == obs.k = "lit" => Lit!VEq(DenLit(obs.blk, obs.src), DenLit(obs.oblk, obs.out))
 
 Judge ==
+  /\ IF ~DecisionConforms \/ ~StatsConform
+     THEN PrintT(ToJson([k |-> "nonconform", line |-> l - 1, decision |-> ~DecisionConforms, modelD |-> ImplDepthMax(toks, TRUE),
+                         modelT |-> ImplTotalDepth(toks, TRUE), modelF |-> ImplFields(toks, TRUE)]))
+     ELSE TRUE
   /\ IF ~PrintPreservesValue
      THEN PrintT(ToJson([k |-> "valuediff", line |-> l - 1]))
      ELSE TRUE
